@@ -204,6 +204,8 @@ def run(P: Program, R: Report, tier: str) -> None:
     frame_local_lookup(P, R, P.func_named("relabel_segmentation"), "R13.5")
     # ---- R13.6 the frames of a per-file segmentation are read in time order
     frames_in_numeric_order(P, R, "R13.6")
+    relabelled_stays_wide(P, R, "R13.7")
+    seg_id_survives_validation(P, R, "R13.8")
 
 
 def frame_local_lookup(P: Program, R: Report, f: FuncInfo, rule: str) -> None:
@@ -400,3 +402,65 @@ def frames_in_numeric_order(P: Program, R: Report, rule: str) -> None:
                     "relabelled from the pixels of another frame", via="syntax")
     if n == 0:
         R.undecided(rule, f, f.node, "per-frame image files are stacked in numeric order", "no sorted directory listing found")
+
+
+def relabelled_stays_wide(P: Program, R: Report, rule: str) -> None:
+    """Node ids have nothing to do with the dtype of the label image: relabelling allocates a 64-bit array.  Between
+    the relabelling and the tracks object nothing casts it to the caller's (possibly narrow) label dtype - ids that do
+    not fit wrap around silently, masks then carry `id mod 2**bits` while the graph keeps the real ids."""
+    WIDE = ("uint64", "int64")
+    n = 0
+    for f in P.functions.values():
+        if ".import_export." not in f.qname or f.cls is None and "segmentation" not in f.name:
+            continue
+        if f.name not in ("build", "handle_segmentation", "relabel_segmentation") and "segmentation" not in f.name:
+            continue
+        for c in ast.walk(f.node):
+            if not (isinstance(c, ast.Call) and isinstance(c.func, ast.Attribute) and c.func.attr == "astype" and c.args):
+                continue
+            recv = norm(c.func.value)
+            if "seg" not in recv.lower():
+                continue
+            n += 1
+            dt = norm(c.args[0])
+            label = f"{f.short}: the (relabelled) segmentation is kept in a 64-bit dtype"
+            if any(w in dt for w in WIDE):
+                R.ok(rule, f, c, label, f"`{norm(c)[:60]}`", via="syntax")
+            elif dt.endswith(".dtype") or any(k in dt for k in ("uint8", "uint16", "uint32", "int8", "int16", "int32")):
+                R.fail(rule, f, c, label, f"`{norm(c)[:70]}` casts to `{dt}`: a node id above that dtype's maximum wraps around - the mask is labelled with another "
+                       "number than the node's id (needs: a narrow in-memory label image, relabelling, an id that does not fit)")
+            else:
+                R.undecided(rule, f, c, label, f"cast to `{dt}`")
+    if n == 0:
+        R.ok(rule, "import_export", "", "no cast of a segmentation on the import path", via="syntax")
+
+
+def seg_id_survives_validation(P: Program, R: Report, rule: str) -> None:
+    """handle_segmentation takes "no seg_id property" to mean "labels already are the node ids" and skips relabelling.
+    Nothing between loading and that decision may drop a seg_id property that was loaded: an `optional property failed
+    validation, remove it` step turns a fixable input into a silently un-relabelled segmentation."""
+    n_bad = 0
+    for f in P.functions.values():
+        if ".import_export." not in f.qname:
+            continue
+        for st in ast.walk(f.node):
+            tgt = None
+            if isinstance(st, ast.Delete):
+                for t in st.targets:
+                    if isinstance(t, ast.Subscript):
+                        tgt = t.slice
+            elif isinstance(st, ast.Call) and isinstance(st.func, ast.Attribute) and st.func.attr == "pop" and st.args:
+                tgt = st.args[0]
+            if tgt is None:
+                continue
+            k = norm(tgt).strip("'\"")
+            q = P.resolve_name(f.module, k) if k.isidentifier() else None
+            cval = P.constants.get(q) if q else None
+            if k == "seg_id" or (isinstance(cval, ast.Constant) and cval.value == "seg_id") or k == "SEG_KEY":
+                recv = norm(st.targets[0].value) if isinstance(st, ast.Delete) else norm(st.func.value)
+                if "props" in recv:
+                    n_bad += 1
+                    R.fail(rule, f, st, "a loaded seg_id property reaches handle_segmentation", f"`{norm(st)[:60]}` drops the seg_id property: handle_segmentation then assumes the "
+                           "labels already are the node ids and hands the segmentation on un-relabelled")
+    if not n_bad:
+        R.ok(rule, "import_export", "", "a loaded seg_id property reaches handle_segmentation (nothing on the import path drops it)", via="who-writes")
